@@ -2,6 +2,7 @@ import Lean.Data.Json
 import Glom.Spec.C05
 import Glom.Spec.C05Tree
 import Glom.Spec.C05Repr
+import Glom.Spec.C05Lift
 import Glom.Generated.C05Facts
 /-
   C05 driver.  case: {"events":[["enter",parent,flagged,spec,target,tid,tlen|null,slen|null(,specValue|null,targetValue|null)] | ["ok"] | ["err",e]…],
@@ -180,18 +181,22 @@ def run (j : Json) : Except String Json := do
       else if !onePath t.err t.kids then "the root error is the outcome of a call outside the propagation path"
       else ""
   let inDom := domainWhy == ""
+  -- the lift theorem (Props/C05Text `c05_text_check`): where its hypotheses hold of the recorded evaluation
+  -- (and no value is elided, so that the model's events are the checker's), the model's text satisfies checkC05
+  let liftHyps := liftHypsOK evs ("<unknown error>".toList :: errs.map (·.2)) rootError width
+  let liftOK := !(liftHyps && inDom && !elided) || modelHolds
   let clauses := clausesC05 evsR errText rootError impl
   let clauseNames := ["begin with the root target", "list the failing path in order", "show the failing spec's target",
     "show every failed branch", "stop at the failing spec (it lists a spec that returned normally below it)"]
   let failedClauses := (clauses.zip clauseNames).filterMap (fun (ok, n) => if ok then none else some n)
-  return Json.mkObj [("agree", model == impl && inDom && msgAgree && reprAgree), ("holds", holds), ("in_domain", inDom), ("domain_why", domainWhy), ("model_holds", modelHolds), ("clauses", toJson clauses),
+  return Json.mkObj [("agree", model == impl && inDom && msgAgree && reprAgree && liftOK), ("lift_hyps", liftHyps), ("lift_ok", liftOK), ("holds", holds), ("in_domain", inDom), ("domain_why", domainWhy), ("model_holds", modelHolds), ("clauses", toJson clauses),
     ("message_agrees", msgAgree), ("repr_agrees", reprAgree), ("values", nValues),
     ("message_clauses", toJson (match message with | some m => clausesC05 evsR errText rootError (msgTrace errText rootError m) | none => [])),
-    ("why", if holds then (if reprAgree then "" else "the model of bbrepr differs from the text bbrepr gave for a spec / target value") else if strFailed then "str(exc) raised: the error has no message" else if unrendered then "the message of an error in the trace could not be rendered: its __str__ raised" else if !tailOK then "the message does not end with the type and message of the original error" else if traceOK && !msgOK then "str(exc) does not contain a target-spec trace that begins with the root target / lists the failing path in order / shows the failing spec's target / shows every failed branch / stops at the failing spec" else
+    ("why", if holds then (if !liftOK then "FRAMEWORK: the hypotheses of the lift theorem hold of this evaluation but the model's text does not satisfy checkC05" else if reprAgree then "" else "the model of bbrepr differs from the text bbrepr gave for a spec / target value") else if strFailed then "str(exc) raised: the error has no message" else if unrendered then "the message of an error in the trace could not be rendered: its __str__ raised" else if !tailOK then "the message does not end with the type and message of the original error" else if traceOK && !msgOK then "str(exc) does not contain a target-spec trace that begins with the root target / lists the failing path in order / shows the failing spec's target / shows every failed branch / stops at the failing spec" else
       "the trace does not " ++ ", ".intercalate failedClauses ++
       (if elided then " — a Target / Spec line does not show the value it was given: the rendering of a value that fits the line is elided (a reprlib size limit is in force)" else "")),
     ("model", Json.mkObj [("trace", model)]),
     ("branch", (if branching then "branching" else "linear") ++ (if chained then "+chain" else "") ++
-               s!"-rows{rows.length}" ++ (if nValues > 0 then "+values" else ""))]
+               s!"-rows{rows.length}" ++ (if nValues > 0 then "+values" else "") ++ (if liftHyps then "+lift" else ""))]
 
 end Glom.C05.Driver
